@@ -70,23 +70,41 @@ def beat_counts(votes: Dict[Tuple[Candidate, Candidate], int]
 def _smith_schwartz_set(votes: Dict[Tuple[Candidate, Candidate], int],
                         ties: bool = True,
                         ) -> List[Candidate]:
-    wins = pairwise_wins(votes, include_ties=ties)
-    copeland_scores = Copeland.scores(wins)
-    copeland_ordering = list(sorted(
-        copeland_scores,
-        key=copeland_scores.get,
-        reverse=True,
-    ))
-    cand_copes = dict(zip(copeland_ordering, range(len(copeland_ordering))))
-    end_i = 1  # index of first candidate out of smith set
-    # Sort wins so that wins over the most promising candidates go first.
-    wins.sort(key=lambda tup: copeland_ordering.index(tup[1]))
-    for winner, loser in wins:
-        if cand_copes[winner] >= end_i and cand_copes[loser] < end_i:
-            end_i = cand_copes[winner] + 1
-            if end_i == len(copeland_ordering):
-                break
-    return copeland_ordering[:end_i]
+    candidates = list(dict.fromkeys(cand for pair in votes for cand in pair))
+    wins = pairwise_wins(votes)
+    scores = {cand: 0 for cand in candidates}
+    scores.update(Copeland.scores(wins))
+    ordering = sorted(candidates, key=scores.get, reverse=True)
+    # Candidate pairs connected by a chain of pairwise wins (or, for the
+    # Smith set, of pairwise wins or ties), by transitive closure.
+    beaten = frozenset(wins)
+    reach = set(
+        (upper, lower) for upper in candidates for lower in candidates
+        if upper != lower and (
+            (upper, lower) in beaten
+            or ties and (lower, upper) not in beaten
+        )
+    )
+    for mid in candidates:
+        for upper in candidates:
+            if (upper, mid) in reach:
+                for lower in candidates:
+                    if upper != lower and (mid, lower) in reach:
+                        reach.add((upper, lower))
+    if ties:
+        # Smith set: the candidates that reach everybody else.
+        return [
+            cand for cand in ordering
+            if all((cand, other) in reach
+                   for other in candidates if other != cand)
+        ]
+    else:
+        # Schwartz set: the candidates that reach back everybody reaching them.
+        return [
+            cand for cand in ordering
+            if all((cand, other) in reach
+                   for other in candidates if (other, cand) in reach)
+        ]
 
 
 class Selector:
